@@ -383,8 +383,8 @@ def is_dyadic_levels(levels):
 
 
 MC_CLASSES = ('normal', 'ongrid-dyadic', 'ongrid', 'neargrid', 'constant', 'zero', 'outlier', 'hugerange', 'offset',
-              'twovalued')
-MC_WEIGHTS = np.array([0.26, 0.12, 0.08, 0.08, 0.07, 0.05, 0.09, 0.10, 0.06, 0.09])
+              'twovalued', 'tinyrange')
+MC_WEIGHTS = np.array([0.22, 0.11, 0.08, 0.08, 0.07, 0.05, 0.08, 0.09, 0.06, 0.08, 0.08])
 
 
 def make_values(rng, shape, klass, levels, bound_hi=30, bound_lo=-25):
@@ -434,6 +434,11 @@ def make_values(rng, shape, klass, levels, bound_hi=30, bound_lo=-25):
     x = np.where(np.abs(x) < 10.0**bound_lo, 10.0**bound_lo, x)
   elif klass == 'offset':
     x = [1000.0, -1e6, 37.0][rng.randint(3)] + rng.randn(d)
+  elif klass == 'tinyrange':
+    # all values (hence the min..max range) far below any epsilon-style guard, but well inside float32's normal range
+    x = rng.rand(d) * 10.0**rng.uniform(-14, -9)
+    if rng.rand() < 0.5:
+      x = x - x.mean()
   elif klass == 'twovalued':
     a, b = rng.randn(2) * 10.0**rng.uniform(-2, 2)
     if rng.rand() < 0.5:
@@ -835,8 +840,8 @@ def struct_shapes(st):
   return acc
 
 
-LEAF_CLASSES = ('normal', 'zero', 'constant', 'ongrid', 'outlier', 'hugerange', 'twovalued')
-LEAF_WEIGHTS = np.array([0.62, 0.07, 0.07, 0.08, 0.06, 0.05, 0.05])
+LEAF_CLASSES = ('normal', 'zero', 'constant', 'ongrid', 'outlier', 'hugerange', 'twovalued', 'tinyrange')
+LEAF_WEIGHTS = np.array([0.57, 0.07, 0.07, 0.08, 0.06, 0.05, 0.05, 0.05])
 
 
 def run_agg(ctx, jax, jnp, C):
